@@ -55,8 +55,8 @@ func ParseCaibx(b []byte) (*Caibx, error) {
 		var it CaibxItem
 		it.End = e
 		copy(it.ID[:], b[off+8:off+40])
-		if e <= last {
-			return nil, fmt.Errorf("offsets not increasing at item %d", len(c.Items))
+		if e < last { // equal offsets describe an empty chunk, which the format can carry anywhere but in first place
+			return nil, fmt.Errorf("offsets decreasing at item %d", len(c.Items))
 		}
 		if e-last > c.Max {
 			return nil, fmt.Errorf("chunk %d larger than max", len(c.Items))
